@@ -351,6 +351,7 @@ def find_target(target):
     return found
 
 
+BASELINE_NAMES = set()  # obligations proved on the unchanged tree: always examined, never skipped after other failures
 KNOWN_OPEN = set()      # obligation names listed as open known findings: only a short attempt is made on them
 
 
@@ -477,6 +478,9 @@ def _verify_body(eng, contract, target, mod, cname, node, res, seed, timeout_ms,
 
     for ob in eng.obligs:
         add('%s/%s' % (tname, ob.name), ob.hyps, ob.goal, ob.kind, bundle=('o', ob.info.get('bundle')) if ob.info.get('bundle') else None)
+    if '%s/frame.no-write-through-a-live-view' % tname not in agg:
+        # no local that is a live view of a state container (a dict used without .copy()) is written to: part of every baseline
+        add('%s/frame.no-write-through-a-live-view' % tname, [], z3.BoolVal(True), 'frame')
     # ---- totality of the cases
     guards = [(case.when(c0) if case.when else z3.BoolVal(True)) for case in contract.cases]
     add('%s/cases-total' % tname, list(ctx.pc[:len(ctx.pc)]) if False else req_terms + _param_facts(ctx), z3.Or(*guards), 'total')
@@ -569,6 +573,12 @@ def _verify_body(eng, contract, target, mod, cname, node, res, seed, timeout_ms,
                     for mn, mt in (contract.must_fail(cc) or {}).items():
                         if mn.startswith(case.name + ':'):
                             add('%s/canary.%s' % (tname, mn), hyps0 + [g], mt, 'canary', expect='refuted-somewhere')
+    # a forbidden outcome that no path produces: recorded as an (empty) obligation so that it is part of the baseline and a
+    # change that makes the outcome possible is measured against it
+    for case in contract.cases:
+        nm_ = '%s/%s.never' % (tname, case.name)
+        if case.forbid and nm_ not in agg:
+            add(nm_, [], z3.BoolVal(True), 'post')
     # a case that no path of the body realises is dead specification (or a hole in the executor's model of the environment)
     for case in contract.cases:
         nm_ = '%s/%s.reach' % (tname, case.name)
@@ -635,7 +645,7 @@ def _verify_body(eng, contract, target, mod, cname, node, res, seed, timeout_ms,
             item['alts'] = {k - lo: v for k, v in full.get('alts', {}).items() if lo <= k < hi}
             base_ = lo
             t1 = time.time()
-            if failed >= 3 and item['expect'] == 'proved':
+            if failed >= 3 and item['expect'] == 'proved' and name not in BASELINE_NAMES:
                 # this worker already saw three failing obligations: the rest is not examined (reported as skipped)
                 if all(z3.is_true(g) or (name, base_ + i_) in pre_proved for i_, (h_, g) in enumerate(item['items'])):
                     st_ = 'proved'
